@@ -68,22 +68,39 @@ def _main_stream(rng, tier):
     n1, n2 = (12000, 4000) if tier == "quick" else (120000, 40000)
     big = 12 if tier == "quick" else 30
     for i in range(n1):
-        prog = X.gen_program(rng, rng.randint(3, big if rng.random() < 0.3 else 9), 0, p_der=0.25)
+        prog = X.gen_program(rng, rng.randint(3, big if rng.random() < 0.3 else 9), 0, p_der=0.25, new_wrappers=True)
         ops = X.gen_ops(rng, prog, rng.randint(10, 60), w=(0.38, 0.05, 0.57, 0, 0, 0), p_drop=0.2)
-        yield dict(case=C.norm([prog, ops]), kind="memos", compare=True)
+        if i % 2:
+            X.add_variants(rng, prog, 0.6)       # other entry points of the same mechanism (see rxlib)
+        yield dict(case=C.norm(X.with_flags(rng, prog, ops, 0.15 if i % 2 else 0)), kind="memos", compare=True)
     for i in range(n2):
-        prog = X.gen_program(rng, rng.randint(4, 11), rng.randint(1, 3), allow_wr=False, p_der=0.25)
+        prog = X.gen_program(rng, rng.randint(4, 11), rng.randint(1, 3), allow_wr=False, p_der=0.25, new_wrappers=True)
         ops = X.gen_ops(rng, prog, rng.randint(10, 40), w=(0.32, 0.04, 0.36, 0.14, 0.12, 0.02), p_drop=0.2)
-        yield dict(case=C.norm([prog, ops]), kind="memos+effects", compare=True)
+        if i % 2:
+            X.add_variants(rng, prog, 0.6)
+            ops = X.vary_disposals(rng, prog, ops)
+        yield dict(case=C.norm(X.with_flags(rng, prog, ops, 0.3 if i % 2 else 0)), kind="memos+effects", compare=True)
     # untrack ZONES with several reads (a stale memo pulled first, then signals), the untracked sources written
     for i in range(1500 if tier == "quick" else 15000):
-        yield dict(case=C.norm(X.gen_zone_case(rng)), kind="zones", compare=True)
+        zc = X.gen_zone_case(rng)
+        if i % 2:
+            X.add_variants(rng, zc[0], 0.6)
+            zc = X.with_flags(rng, zc[0], zc[1], 0.5)
+        yield dict(case=C.norm(zc), kind="zones", compare=True)
+    # operations that are NOT writes (maybe_update returning false, write().untrack(), ...): values must stay
+    for i in range(600 if tier == "quick" else 6000):
+        prog = X.gen_program(rng, rng.randint(3, 9), rng.choice([0, 0, 1]), allow_wr=False, p_der=0.25)
+        X.add_variants(rng, prog, 0.4)
+        ops = X.add_silent(rng, prog, X.gen_ops(rng, prog, rng.randint(8, 30), w=(0.3, 0.04, 0.5, 0.06, 0.1, 0)))
+        yield dict(case=C.norm([prog, ops]), kind="silent", compare=False)
     # ImmediateEffect subscribers: they run inside the marking phase of a write and change subscriber lists while
     # the signal is still notifying (not modelled: oracle only; the reads made after each write are checked)
     for i in range(2500 if tier == "quick" else 25000):
         ne = rng.choice([1, 1, 2])
         prog = X.gen_program(rng, rng.randint(ne + 2, 9), ne, eff_kinds=(5,), allow_wr=False, p_untr=0.05, p_der=0.2)
         ops = X.gen_ops(rng, prog, rng.randint(6, 30), w=(0.45, 0.05, 0.5, 0.0, 0.0, 0.0))
+        if i % 2:
+            X.add_variants(rng, prog, 0.6)
         yield dict(case=C.norm([prog, ops]), kind="immediate", compare=False)
     # memos created inside other computations: templates that a memo / effect body instantiates at run time, every
     # time it runs (not modelled: oracle only)
